@@ -121,10 +121,31 @@ func genStep(w *bufio.Writer, r *rand.Rand, k int, overM bool, bigEvery int, fla
 							pc = m - 2
 						}
 						c := []int64{1, m, rl, wl, p, 1, flags, 1, 1, m, pc, 0}
+						// a core of near-copies of one cell (equal, or different in exactly one component):
+						// what the comparing opcodes tell apart, component by component
+						near := r.Intn(4) == 0 || (op >= 11 && op <= 14 && r.Intn(3) != 0)
+						base := randInstr(r, m, rl, wl)
 						for a := int64(0); a < m; a++ {
 							if a == pc {
 								c = append(c, int64(op), int64(md), biasedField(r, m, rl, wl), int64(am),
 									biasedField(r, m, rl, wl), int64(bm))
+							} else if near {
+								cell := append([]int64{}, base...)
+								switch r.Intn(8) {
+								case 0:
+									cell[0] = int64(r.Intn(17))
+								case 1:
+									cell[1] = int64(r.Intn(7))
+								case 2:
+									cell[2] = (cell[2] + 1 + r.Int63n(2)) % m
+								case 3:
+									cell[3] = int64(r.Intn(8))
+								case 4:
+									cell[4] = (cell[4] + 1 + r.Int63n(2)) % m
+								case 5:
+									cell[5] = int64(r.Intn(8))
+								}
+								c = append(c, cell...)
 							} else {
 								c = append(c, randInstr(r, m, rl, wl)...)
 							}
